@@ -148,6 +148,24 @@ Definition rebuild_ok (I cap nu63 funding tip : Z) (pend : list Z) (row : Z * Z 
   match an with Some b => anchor_ok I nu63 funding sched b | None => false end.
 
 (* ------------------------------------------------------------------------------------------ *)
+(** * Parameter plumbing *)
+
+(** a ZIP 318 delay value scaled to the interval: truncated, at least 1, at most u32::MAX *)
+Definition scaled_spec (I v : Z) : Z := Z.max 1 (Z.min u32_max (v * I / ZIP318_INTERVAL)).
+
+(** the parameters a migration runs under: the grid it was given, every configured distribution in
+    its own slot, the scaled ZIP 318 values when none is configured *)
+Definition params_ok (I : Z) (cfg : option (Z * Z * Z * Z)) (o : Z * Z * Z * Z * Z) : bool :=
+  let '(i, tm, tc, pm, pc) := o in
+  (i =? I) &&
+  match cfg with
+  | Some (a, ca, b, cb) => (tm =? a) && (tc =? ca) && (pm =? b) && (pc =? cb)
+  | None =>
+      (tm =? scaled_spec I TRANSFER_DELAY_MEAN) && (tc =? scaled_spec I TRANSFER_DELAY_CAP) &&
+      (pm =? scaled_spec I PREP_DELAY_MEAN) && (pc =? scaled_spec I PREP_DELAY_CAP)
+  end && (1 <=? tm) && (tm <=? tc) && (1 <=? pm) && (pm <=? pc).
+
+(* ------------------------------------------------------------------------------------------ *)
 (** * Wake-ups *)
 
 (** proving window of a transfer (a, b) at the observed tip: [ready, deadline]; overdue when
